@@ -525,10 +525,46 @@ func genBurst(r *vh.Rand, thorough bool) *Case {
 	return c
 }
 
+// genLiveDelete: the target holds a few hundred leaves and deletes them one by
+// one, back to back, while several clients subscribe: a leaf the snapshot walk
+// has seen may be deleted before it is queued -- its delete notification must
+// not overtake it.
+func genLiveDelete(r *vh.Rand) *Case {
+	c := &Case{Family: "live", Live: true, NoPace: true, LiveDelayMS: r.Intn(3), LiveStaggerMS: r.Intn(3)}
+	c.Requests = []ReqCfg{{Name: "all", Prefix: &GPath{Origin: "openconfig"}, Paths: []GPath{{}}}}
+	c.Targets = []TargetCfg{{Name: "dev1", Request: "all"}}
+	n := 260 + r.Intn(80)
+	leaf := func(i int) GPath {
+		return GPath{Elem: []PElem{{Name: "gone"}, {Name: fmt.Sprintf("l%03d", i)}}}
+	}
+	ts := int64(1000)
+	for i := 0; i < n; i += 20 {
+		ts += 5
+		nt := &Noti{TS: ts}
+		for j := i; j < i+20 && j < n; j++ {
+			nt.Updates = append(nt.Updates, Upd{Path: leaf(j), Val: TV{K: "int", I: int64(j)}})
+		}
+		c.Ops = append(c.Ops, Op{T: "dev1", N: nt})
+	}
+	c.Ops = append(c.Ops, Op{Subscribe: true})
+	for i := 0; i < n-3; i++ { // three leaves stay
+		ts += 5
+		c.Ops = append(c.Ops, Op{T: "dev1", DelayUS: 20 + r.Intn(40), N: &Noti{TS: ts, Deletes: []GPath{leaf(i)}}})
+	}
+	for i := 0; i < 5; i++ {
+		c.Clients = append(c.Clients, ClientSpec{Prefix: GPath{Target: "dev1"}})
+	}
+	c.Cli = []CliSpec{{Target: "dev1", Query: []string{}}}
+	return c
+}
+
 // genLive: the target writes each of many leaves exactly once, one message
 // every 2 ms, while several clients subscribe one after the other: whatever
 // falls between a client's snapshot and its registration is missing for good.
 func genLive(r *vh.Rand, thorough bool) *Case {
+	if r.Chance(1, 2) {
+		return genLiveDelete(r)
+	}
 	c := &Case{Family: "live", Live: true, LiveDelayMS: 5 + r.Intn(30), LiveStaggerMS: 15 + r.Intn(25)}
 	c.Requests = []ReqCfg{{Name: "all", Prefix: &GPath{Origin: "openconfig"}, Paths: []GPath{{}}}}
 	c.Targets = []TargetCfg{{Name: "dev1", Request: "all"}}
@@ -703,6 +739,64 @@ func genScenario(r *vh.Rand, family string, thorough bool) *Case {
 	}
 	if family == "multi" {
 		c.Clients = append(c.Clients, wholeTarget("unknown-device"))
+	}
+	// one request with several subscription entries, as a client writes it in a
+	// text proto: (A) no origin in the prefix, the origin in the path of each
+	// entry (a different one per entry, the non-last ones included); (B) the
+	// origin in the prefix and one subtree per entry.  What is streamed after
+	// the sync under every entry must arrive.
+	switch family {
+	case "origins", "multi", "basic", "deletes", "reconnect":
+		tops := map[string][]string{} // origin -> first path elements seen under it
+		for _, o := range c.Ops {
+			if o.T != first || o.N == nil {
+				continue
+			}
+			for _, u := range o.N.Updates {
+				k := keyOf(o.N.Prefix, u.Path)
+				if len(k) >= 2 && k[1] != "*" {
+					dup := false
+					for _, x := range tops[k[0]] {
+						dup = dup || x == k[1]
+					}
+					if !dup {
+						tops[k[0]] = append(tops[k[0]], k[1])
+					}
+				}
+			}
+		}
+		origs := make([]string, 0, len(tops))
+		for o := range tops {
+			origs = append(origs, o)
+		}
+		sort.Strings(origs)
+		if len(origs) > 0 {
+			// (A)
+			var entries []GPath
+			for i, o := range origs {
+				e := GPath{Origin: o}
+				if i%2 == 1 || len(origs) == 1 {
+					e.Elem = []PElem{{Name: tops[o][r.Intn(len(tops[o]))]}}
+				}
+				entries = append(entries, e)
+			}
+			if len(entries) == 1 && len(tops[origs[0]]) > 1 {
+				entries = append(entries, GPath{Origin: origs[0], Elem: []PElem{{Name: tops[origs[0]][0]}}})
+			}
+			entries = append(entries, GPath{Origin: "unused-origin", Elem: []PElem{{Name: "nothing"}}})
+			r0 := r.Intn(len(entries))
+			entries[0], entries[r0] = entries[r0], entries[0]
+			c.Clients = append(c.Clients, ClientSpec{Prefix: GPath{Target: first}, Path: entries[0], More: entries[1:]})
+			// (B)
+			o := origs[r.Intn(len(origs))]
+			var sub []GPath
+			for _, t := range tops[o] {
+				if len(sub) < 3 {
+					sub = append(sub, GPath{Elem: []PElem{{Name: t}}})
+				}
+			}
+			c.Clients = append(c.Clients, ClientSpec{Prefix: GPath{Target: first, Origin: o}, Path: sub[0], More: sub[1:]})
+		}
 	}
 	// a subtree subscription: an interior node of some update of the first target
 	for _, o := range c.Ops {
